@@ -77,6 +77,7 @@ type Violation struct {
 	Notes  []string          `json:"notes,omitempty"`
 	Inputs []InputRec        `json:"inputs"`
 	Arrays map[string][]int  `json:"arrays,omitempty"`
+	Crash  []map[string][]byte `json:"crash,omitempty"`
 }
 
 type NativeFn func(ex *Exec, fr *frame, args []Value) Value
@@ -120,6 +121,7 @@ type Exec struct {
 	havocs     int
 	asserts    map[string]*assertStat
 	fs         *fileModel
+	crashImages []crashImage
 	goroutines int
 	randBudget int
 	mapOrders  bool
@@ -131,6 +133,7 @@ type Exec struct {
 	clock      *Term
 	errTypes   map[string]types.Type
 
+	noSimp      bool
 	tcGen       *TermCtx
 	pcHash      uint64
 	simpCache   map[[2]uint64]bool
@@ -206,6 +209,7 @@ func (ex *Exec) resetPath(item workItem) {
 	ex.havocs = 0
 	ex.asserts = map[string]*assertStat{}
 	ex.fs = newFileModel()
+	ex.crashImages = nil
 	ex.goroutines = 0
 	ex.randBudget = 0
 	ex.mapOrders = false
@@ -238,6 +242,9 @@ func (ex *Exec) addPC(c *Term) {
 func (ex *Exec) cannot(c *Term) bool {
 	if c.IsConst() {
 		return c.val == 0
+	}
+	if ex.noSimp {
+		return false
 	}
 	key := [2]uint64{ex.pcHash, uint64(c.id)}
 	if r, ok := ex.simpCache[key]; ok {
